@@ -31,7 +31,40 @@ HEADER_MODEL = ('From Coq Require Import ZArith PrimFloat List Bool String.\n'
                 'From AV Require Import lib.Num lib.FloatMath model.C12_Base model.C12_Model.\n'
                 'Import ListNotations.\nOpen Scope string_scope.\n'
                 'Notation F := FNum.\n')
-HEADER_EXT = HEADER_MODEL + 'From Gen Require C12_Extracted.\nModule X := C12_Extracted.\n'
+HEADER_EXT = HEADER_MODEL + '''From Gen Require C12_Extracted.
+Module X := C12_Extracted.
+(* PMnvol_MEEM recomposed from the statements regenerated from /repo (grids and np.interp from C12_Base/Model) *)
+Definition x_meem_point (e : @edb F) (hmax hp h Ta P M : float) : float * float * float :=
+  let rate := (h - hp)%float in
+  let eta := @X.meem_eta F rate in
+  let pc := @X.meem_pc F rate (@X.meem_lin F h hmax) in
+  let Pt := @X.meem_Pt F P M in
+  let P3 := @X.meem_P3 F Pt pc (@e_pr F e) in
+  let T3 := @X.meem_T3 F (@X.meem_Tt F Ta M) eta P3 Pt in
+  let P3r := @X.meem_P3ref F T3 eta in
+  let Fr := @X.meem_F F P3r (@e_pr F e) in
+  let fm (m : mode) := @X.meem_recon_mass F (@tget F (@e_SN F e) m) (@afr F m) (@e_bpr F e) (@e_type F e) in
+  let mass := if (@tmin F (@e_mass F e) <? 0)%float then (fm Idle, fm Approach, fm Climb, fm Takeoff) else @e_mass F e in
+  let fn (m : mode) := @X.meem_recon_num F (@tget F mass m) (@gmd_mode F m) in
+  let num := if (@tmin F (@e_num F e) <? 0)%float then (fn Idle, fn Approach, fn Climb, fn Takeoff) else @e_num F e in
+  let ref_mass := @ninterp F Fr (@meem_grid F mass (@e_mass_max F e) (@e_mass_kind F e)) in
+  let ref_num := @ninterp F Fr (@meem_grid F num (@e_num_max F e) (@e_num_kind F e)) in
+  let gmd := @ninterp F Fr (@meem_grid F (@gmd_modes F) 0%float NoMax) in
+  let ei_mass := @X.meem_EI_mass F ref_mass P3 P3r in
+  let ei_num := @X.meem_EI_num F ref_num ei_mass ref_mass in
+  if (@tmax F (@e_SN F e) <? 0)%float then (0, 0, 0)%float
+  else (gmd, (if (ei_mass <? 0)%float then 0%float else ei_mass), ei_num).
+Fixpoint x_meem_from (e : @edb F) (hmax hp : float) (pts : list (float * float * float * float)) :=
+  match pts with
+  | [] => []
+  | (h, Ta, P, M) :: r => x_meem_point e hmax hp h Ta P M :: x_meem_from e hmax h r
+  end.
+Definition x_meem (e : @edb F) (pts : list (float * float * float * float)) :=
+  match pts with
+  | [] => []
+  | (h0, _, _, _) :: r => x_meem_from e (@list_max F (map (fun p => let '(h, _, _, _) := p in h) r) h0) h0 pts
+  end.
+'''
 
 
 # =============================================================================
@@ -137,20 +170,19 @@ def o_hcco(ff, ei, cal, T, P):
         lbrk = math.log(fI) + math.log(horiz / eI) / s          # intersection of slanted and horizontal line
     lI, lA, lC = math.log(fI), math.log(fA), math.log(fC)
     slanted = None    # (slope, through fI/eI) or None for horizontal everywhere
+    brk_exact = None  # the breakpoint as an exact fuel flow when a rule clamps it to a calibration flow
     if lbrk > lC:
         margin = min(margin, abs(lbrk - lC))
-        lbrk = lC
+        lbrk, brk_exact = lC, fC
         slanted = s
     elif lbrk < lA and s < 0:
         margin = min(margin, abs(lbrk - lC), abs(lbrk - lA))
         horiz = eA
-        lbrk = lA
+        lbrk, brk_exact = lA, fA
         slanted = s
     elif s >= 0:
         margin = min(margin, abs(lbrk - lC))
-        if not s_zero:
-            pass
-        lbrk = lA
+        lbrk, brk_exact = lA, fA
         slanted = None
     else:
         margin = min(margin, abs(lbrk - lC), abs(lbrk - lA))
@@ -158,15 +190,14 @@ def o_hcco(ff, ei, cal, T, P):
     if ff <= 0:
         return None, margin, 0.0
     lf = math.log(ff)
-    if lf >= lbrk:
-        if lf != lbrk:
-            margin = min(margin, abs(lf - lbrk))
-        lv = math.log10(horiz)
-    elif slanted is None:
+    # upper segment iff log ff >= breakpoint; a flow within rounding of the breakpoint (but not equal to it)
+    # may legitimately fall on either side once logarithms are rounded: the oracle abstains there
+    upper = (ff >= brk_exact) if brk_exact is not None else (lf >= lbrk)
+    if not (brk_exact is not None and ff == brk_exact) and slanted is not None:
         margin = min(margin, abs(lf - lbrk))
+    if upper or slanted is None:
         lv = math.log10(horiz)
     else:
-        margin = min(margin, abs(lf - lbrk))
         lv = math.log10(eI) + slanted * (lf - lI) / math.log(10.0)
     acrp = 1.0 + 52.0 * (fI - ff) if ff < fI else 1.0
     cruise = math.pow(T / 288.15, 3.3) / math.pow(P / 101325.0, 1.02)
@@ -252,6 +283,10 @@ def quiet_fd1():
         os.close(devnull)
 
 
+def canon_nan(x):
+    return json.dumps(x)          # NaN -> 'NaN', so NaN == NaN for the repeatability test
+
+
 def impl_case(c):
     """Run the real code on one case; returns plain python floats/strings (or {'error': ...})."""
     np = _np()
@@ -294,20 +329,38 @@ def impl_case(c):
                 T = np.array([p[1] for p in c['pts']], dtype=float)
                 P = np.array([p[2] for p in c['pts']], dtype=float)
 
-                def run(ei):
+                def run(ei, keep=None):
+                    cal_v, ei_v = tmv(c['cal']), tmv(ei)
                     with quiet_fd1():
-                        r = BFFM2_EINOx(ff, tmv(ei), tmv(c['cal']), T, P)
+                        r = BFFM2_EINOx(ff, ei_v, cal_v, T, P)
+                    if keep is not None:
+                        keep.append((cal_v.as_array().tolist(), ei_v.as_array().tolist()))
                     return [list(map(float, t)) for t in zip(r.NOxEI, r.NOEI, r.NO2EI, r.HONOEI, r.noProp,
                                                              r.no2Prop, r.honoProp)]
-                return {'out': run(c['ei']), 'out_k': run([e * c['k'] for e in c['ei']])}
+                before = (ff.copy(), T.copy(), P.copy())
+                kept = []
+                o1 = run(c['ei'], kept)
+                untouched = (np.array_equal(before[0], ff) and np.array_equal(before[1], T) and np.array_equal(before[2], P)
+                             and kept[0] == ([float(v) for v in c['cal']], [float(v) for v in c['ei']]))
+                ok_ = run([e * c['k'] for e in c['ei']])
+                o2 = run(c['ei'])
+                return {'out': o1, 'out_k': ok_, 'inputs_untouched': bool(untouched),
+                        'repeatable': bool(canon_nan(o1) == canon_nan(o2))}
             if k == 'hcco':
                 from AEIC.emissions.ei.hcco import EI_HCCO
                 ff = np.array([p[0] for p in c['pts']], dtype=float)
                 T = np.array([p[1] for p in c['pts']], dtype=float)
                 P = np.array([p[2] for p in c['pts']], dtype=float)
-                r = EI_HCCO(ff, tmv(c['ei']), tmv(c['cal']), T, P)
+                before = (ff.copy(), T.copy(), P.copy())
+                cal_v, ei_v = tmv(c['cal']), tmv(c['ei'])
+                r = EI_HCCO(ff, ei_v, cal_v, T, P)
+                untouched = (np.array_equal(before[0], ff) and np.array_equal(before[1], T) and np.array_equal(before[2], P)
+                             and cal_v.as_array().tolist() == [float(v) for v in c['cal']]
+                             and ei_v.as_array().tolist() == [float(v) for v in c['ei']])
                 r2 = EI_HCCO(ff, tmv([e * c['k'] for e in c['ei']]), tmv(c['cal']), T, P)
-                return {'out': r.tolist(), 'out_k': r2.tolist()}
+                r3 = EI_HCCO(ff, tmv(c['ei']), tmv(c['cal']), T, P)
+                return {'out': r.tolist(), 'out_k': r2.tolist(), 'inputs_untouched': bool(untouched),
+                        'repeatable': bool(canon_nan(r.tolist()) == canon_nan(r3.tolist()))}
             if k == 'sox':
                 from AEIC.emissions.ei.sox import EI_SOx
                 from AEIC.types import Fuel
@@ -334,6 +387,21 @@ def impl_case(c):
                 return {'out': [float(r[m]) for m in ThrustMode]}
             if k == 'meem':
                 return impl_meem(c)
+            if k == 'sound':
+                from AEIC.utils.standard_atmosphere import (
+                    calculate_air_density,
+                    calculate_speed_of_sound,
+                    speed_of_sound_at_altitude,
+                )
+                h = np.array(c['h'], dtype=float)
+                T = np.array(c['T'], dtype=float)
+                p = np.array(c['p'], dtype=float)
+                return {'a_T': calculate_speed_of_sound(T).tolist(), 'a_h': speed_of_sound_at_altitude(h).tolist(),
+                        'rho': calculate_air_density(p, T).tolist()}
+            if k == 'shape':
+                return impl_shape(c)
+            if k == 'cache':
+                return impl_cache(c)
         except Exception as e:  # noqa: BLE001
             return {'error': f'{type(e).__name__}: {e}'}
     raise ValueError(k)
@@ -342,10 +410,16 @@ def impl_case(c):
 KIND_VALUE = {'NoMax': float('nan'), 'NoMaxNeg': -1.0, 'Max575': 0.575, 'Max925': 0.925}
 
 
-def impl_meem(c):
+def impl_meem(c, as_int=False):
     np = _np()
     from AEIC.emissions.ei.pmnvol import PMnvol_MEEM
     from AEIC.performance.edb import EDBEntry
+
+    def tmv(vals):            # integer-valued certification data handed over as python ints when as_int
+        from AEIC.performance.types import ThrustModeValues
+        if as_int and all(float(v).is_integer() for v in vals):
+            return ThrustModeValues(*[int(v) for v in vals])
+        return ThrustModeValues(*[float(v) for v in vals])
 
     def run(mass_k=1.0, num_k=1.0):
         e = c['edb']
@@ -364,6 +438,193 @@ def impl_meem(c):
             g, m, n = PMnvol_MEEM(edb, *a)
         return [list(map(float, t)) for t in zip(g, m, n)]
     return {'out': run(), 'out_mass_k': run(mass_k=c['k']), 'out_num_k': run(num_k=c['k'])}
+
+
+def impl_shape(c):
+    """The same numbers handed over as scalar / 0-d / 1-element / list / integer inputs must give the same
+    results as the n-element float arrays (documented argument types only).  Returns the discrepancies."""
+    np = _np()
+    from AEIC.emissions.ei.hcco import EI_HCCO
+    from AEIC.emissions.ei.nox import BFFM2_EINOx
+    from AEIC.emissions.ei.pmnvol import calculate_PMnvolEI_scope11
+    from AEIC.emissions.ei.pmvol import EI_PMvol_FOA3, EI_PMvol_FuelFlow
+    from AEIC.emissions.utils import get_SLS_equivalent_fuel_flow, get_thrust_cat_cruise
+    from AEIC.performance.types import ThrustMode, ThrustModeArray, ThrustModeValues
+    from AEIC.utils.standard_atmosphere import (
+        altitude_from_pressure_isa_bada4,
+        pressure_at_altitude_isa_bada4,
+        temperature_at_altitude_isa_bada4,
+    )
+    issues = []
+
+    def same(a, b, what):
+        try:
+            a = np.asarray(a, dtype=float).ravel()
+            b = np.asarray(b, dtype=float).ravel()
+            if a.shape != b.shape or not np.allclose(a, b, rtol=1e-12, atol=0.0, equal_nan=True):
+                issues.append(f'{what}: {a.tolist()[:6]} vs {b.tolist()[:6]}')
+        except Exception as e:  # noqa: BLE001
+            issues.append(f'{what}: {type(e).__name__}: {e}')
+
+    def attempt(what, fn):
+        try:
+            return fn()
+        except Exception as e:  # noqa: BLE001
+            issues.append(f'{what}: raised {type(e).__name__}: {e}')
+            return None
+
+    hs = [float(h) for h in c['h']]
+    ha = np.array(hs)
+    for nme, f in (('temperature', temperature_at_altitude_isa_bada4), ('pressure', pressure_at_altitude_isa_bada4)):
+        base = np.asarray(f(ha), dtype=float)
+        for i, h in enumerate(hs):
+            for tag, v in (('python float', h), ('0-d array', np.float64(h)), ('1-element array', np.array([h]))):
+                r = attempt(f'{nme}({tag} {h})', lambda v=v: f(v))
+                if r is not None:
+                    same(r, base[i], f'{nme}: {tag} {h} vs element {i} of the array call')
+        r = attempt(f'{nme}(list)', lambda: f(hs))
+        if r is not None:
+            same(r, base, f'{nme}: python list vs array')
+        hi = [int(round(h)) for h in hs]
+        r = attempt(f'{nme}(int array)', lambda: f(np.array(hi)))
+        if r is not None:
+            same(r, f(np.array(hi, dtype=float)), f'{nme}: integer altitudes {hi} vs the same as floats')
+        r = attempt(f'{nme}(2-D)', lambda: f(ha.reshape(2, -1)))
+        if r is not None:
+            same(r, base, f'{nme}: 2-D array vs flat array')
+    pa = np.asarray(pressure_at_altitude_isa_bada4(ha), dtype=float)
+    base = altitude_from_pressure_isa_bada4(pa)
+    for i, p in enumerate(pa.tolist()):
+        r = attempt('altitude_from_pressure(scalar)', lambda p=p: altitude_from_pressure_isa_bada4(p))
+        if r is not None:
+            same(r, base[i], f'altitude_from_pressure: scalar {p} vs element {i}')
+    pi_ = [int(round(p)) for p in pa.tolist()]
+    r = attempt('altitude_from_pressure(int)', lambda: altitude_from_pressure_isa_bada4(np.array(pi_)))
+    if r is not None:
+        same(r, altitude_from_pressure_isa_bada4(np.array(pi_, dtype=float)), 'altitude_from_pressure: integer pascals vs floats')
+
+    ff = np.array([p[0] for p in c['pts']], dtype=float)
+    T = np.array([p[1] for p in c['pts']], dtype=float)
+    P = np.array([p[2] for p in c['pts']], dtype=float)
+    M = np.array([p[3] for p in c['pts']], dtype=float)
+    cal, ei = tmv(c['cal']), tmv(c['ei'])
+    base = get_SLS_equivalent_fuel_flow(ff, P, T, M, n_eng=2)
+    for i in range(len(ff)):
+        r = attempt('get_SLS(scalars)', lambda i=i: get_SLS_equivalent_fuel_flow(float(ff[i]), float(P[i]), float(T[i]), float(M[i]), n_eng=2))
+        if r is not None:
+            same(r, base[i], f'get_SLS_equivalent_fuel_flow: scalars vs element {i}')
+    base_cat = [str(x) for x in get_thrust_cat_cruise(ff, cal).data]
+    for i in range(len(ff)):
+        r = attempt('thrust_cat(1-element)', lambda i=i: [str(x) for x in get_thrust_cat_cruise(ff[i:i + 1], cal).data])
+        if r is not None and r != base_cat[i:i + 1]:
+            issues.append(f'get_thrust_cat_cruise: 1-element array {ff[i]} -> {r} vs {base_cat[i]} in the n-element call')
+    ffi = np.array([0, 1, 2, 3])
+    r = attempt('thrust_cat(int)', lambda: [str(x) for x in get_thrust_cat_cruise(ffi, cal).data])
+    if r is not None and r != [str(x) for x in get_thrust_cat_cruise(ffi.astype(float), cal).data]:
+        issues.append(f'get_thrust_cat_cruise: integer fuel flows {ffi.tolist()} classified differently from floats')
+    # HC/CO and NOx: 1-element calls, scalar ambient state, integer fuel flows, integer certification data
+    base_h = EI_HCCO(ff, ei, cal, T, P)
+    with quiet_fd1():
+        base_n = BFFM2_EINOx(ff, ei, cal, T, P).NOxEI
+    for i in range(len(ff)):
+        r = attempt('EI_HCCO(1-element, scalar ambient)', lambda i=i: EI_HCCO(ff[i:i + 1], ei, cal, float(T[i]), float(P[i])))
+        if r is not None:
+            same(r, base_h[i], f'EI_HCCO: 1-element array + scalar T/P vs element {i}')
+        r = attempt('EI_HCCO(1-element arrays)', lambda i=i: EI_HCCO(ff[i:i + 1], ei, cal, T[i:i + 1], P[i:i + 1]))
+        if r is not None:
+            same(r, base_h[i], f'EI_HCCO: 1-element arrays vs element {i}')
+        with quiet_fd1():
+            r = attempt('BFFM2_EINOx(1-element, scalar ambient)',
+                        lambda i=i: BFFM2_EINOx(ff[i:i + 1], ei, cal, float(T[i]), float(P[i])).NOxEI)
+        if r is not None:
+            same(r, base_n[i], f'BFFM2_EINOx: 1-element array + scalar T/P vs element {i}')
+    r = attempt('EI_HCCO(int ff)', lambda: EI_HCCO(ffi, ei, cal, 288.15, 101325.0))
+    if r is not None:
+        same(r, EI_HCCO(ffi.astype(float), ei, cal, 288.15, 101325.0), 'EI_HCCO: integer fuel flows vs floats')
+    with quiet_fd1():
+        r = attempt('BFFM2_EINOx(int ff, int ambient)', lambda: BFFM2_EINOx(ffi, ei, cal, np.array([288] * 4), np.array([101325] * 4)).NOxEI)
+        if r is not None:
+            same(r, BFFM2_EINOx(ffi.astype(float), ei, cal, np.array([288.0] * 4), np.array([101325.0] * 4)).NOxEI,
+                 'BFFM2_EINOx: integer inputs vs floats')
+    ici = [max(1, int(round(v))) for v in c['ei']]
+    icc = [1, 2, 3, 5]
+    r = attempt('EI_HCCO(int cert)', lambda: EI_HCCO(ff, ThrustModeValues(*ici), ThrustModeValues(*icc), T, P))
+    if r is not None:
+        same(r, EI_HCCO(ff, tmv(ici), tmv(icc), T, P), 'EI_HCCO: integer certification data vs floats')
+    with quiet_fd1():
+        r = attempt('BFFM2_EINOx(int cert)', lambda: BFFM2_EINOx(ff, ThrustModeValues(*ici), ThrustModeValues(*icc), T, P).NOxEI)
+        if r is not None:
+            same(r, BFFM2_EINOx(ff, tmv(ici), tmv(icc), T, P).NOxEI, 'BFFM2_EINOx: integer certification data vs floats')
+    # FOA3 with the documented 2-D shape (n_types, n_times)
+    th = np.array(c['thrust'], dtype=float)
+    hc = np.array(c['hc'], dtype=float)
+    b1, _ = EI_PMvol_FOA3(th, hc)
+    r = attempt('EI_PMvol_FOA3(2-D)', lambda: EI_PMvol_FOA3(th.reshape(2, -1), hc.reshape(2, -1))[0])
+    if r is not None:
+        same(r, b1, 'EI_PMvol_FOA3: (2, n) arrays vs flat')
+    r = attempt('EI_PMvol_FOA3(int thrust)', lambda: EI_PMvol_FOA3(np.array([7, 30, 50, 100]), np.array([1, 2, 3, 4]))[0])
+    if r is not None:
+        same(r, EI_PMvol_FOA3(np.array([7.0, 30.0, 50.0, 100.0]), np.array([1.0, 2.0, 3.0, 4.0]))[0], 'EI_PMvol_FOA3: integers vs floats')
+    modes = [ThrustMode.IDLE, ThrustMode.APPROACH, ThrustMode.CLIMB, ThrustMode.TAKEOFF]
+    bm, _ = EI_PMvol_FuelFlow(np.ones(4), ThrustModeArray(np.array(modes)))
+    for i, md in enumerate(modes):
+        r = attempt('EI_PMvol_FuelFlow(1-element)', lambda md=md: EI_PMvol_FuelFlow(np.ones(1), ThrustModeArray(np.array([md])))[0])
+        if r is not None:
+            same(r, bm[i], f'EI_PMvol_FuelFlow: 1-element {md} vs element {i}')
+    # SCOPE11 and MEEM with integer-valued certification data
+    sni = [int(v) for v in c['sn_int']]
+    r = attempt('scope11(int SN)', lambda: calculate_PMnvolEI_scope11(ThrustModeValues(*sni), 'MTF', 5))
+    if r is not None:
+        same([r[m] for m in ThrustMode], [calculate_PMnvolEI_scope11(tmv(sni), 'MTF', 5.0)[m] for m in ThrustMode],
+             f'calculate_PMnvolEI_scope11: integer smoke numbers {sni} vs floats')
+    mc = c['meem']
+    rf = attempt('MEEM(float)', lambda: impl_meem(mc)['out'])
+    ri = attempt('MEEM(int)', lambda: impl_meem(mc, as_int=True)['out'])
+    if rf is not None and ri is not None:
+        same(ri, rf, 'PMnvol_MEEM: integer smoke numbers / pressure ratio / mass indices vs floats')
+    one = dict(mc, pts=mc['pts'][:1])
+    r1 = attempt('MEEM(1 point)', lambda: impl_meem(one)['out'])
+    if r1 is not None and not all(math.isfinite(x) and x >= 0 for x in r1[0]):
+        issues.append(f'PMnvol_MEEM: single-point trajectory gives {r1[0]}')
+    return {'issues': issues}
+
+
+def impl_cache(c):
+    """Cached helpers (functools.cache) called in one process with colliding hashes / repeated keys."""
+    from AEIC.emissions.ei.nox import NOx_speciation
+    from AEIC.emissions.ei.pmnvol import calculate_PMnvolEI_scope11
+    from AEIC.emissions.utils import scope11_profile
+    from AEIC.performance.edb import EDBEntry
+    from AEIC.performance.types import ThrustMode
+    prof, direct, writable = [], [], []
+    z = tmv([0, 0, 0, 0])
+    for sn, et, bpr in c['seq']:
+        edb = EDBEntry(engine='CACHE', uid='SAME-UID', engine_type=et, BP_Ratio=float(bpr), rated_thrust=100.0, fuel_flow=z,
+                       CO_EI_matrix=z, HC_EI_matrix=z, EI_NOx_matrix=z, SN_matrix=tmv(sn), nvPM_mass_matrix=z,
+                       nvPM_num_matrix=z, PR=tmv([25.0] * 4), EImass_max=1.0, EImass_max_thrust=float('nan'),
+                       EInum_max=1.0, EInum_max_thrust=float('nan'))
+        p = scope11_profile(edb)
+        prof.append([float(p.mass[m]) for m in ThrustMode])
+        d = calculate_PMnvolEI_scope11(tmv(sn), et, float(bpr))
+        direct.append([float(d[m]) for m in ThrustMode])
+        w = False
+        for obj in (p.mass, d):
+            try:
+                obj[ThrustMode.IDLE] = 12345.0          # a cached value must not be poisonable by its callers
+                w = True
+            except TypeError:
+                pass
+        writable.append(w)
+    s1 = NOx_speciation()
+    w = False
+    try:
+        s1.no[ThrustMode.IDLE] = 0.5
+        w = True
+    except TypeError:
+        pass
+    s2 = NOx_speciation()
+    spec = [[float(s2.no[m]), float(s2.no2[m]), float(s2.hono[m])] for m in ThrustMode]
+    return {'profile': prof, 'direct': direct, 'writable': writable, 'spec': spec, 'spec_writable': w}
 
 
 # =============================================================================
@@ -418,6 +679,8 @@ def model_expr(c, variant):
                f"{fl(e['pr'])} {fl(e['mass_max'])} {kind.get(e['mass_kind'], e['mass_kind'])} {fl(e['num_max'])} "
                f"{kind.get(e['num_kind'], e['num_kind'])})")
         return f"@meem F {edb} {lst(tup(p) for p in c['pts'])}"
+    if k in ('sound', 'shape', 'cache'):
+        return None
     raise ValueError(k)
 
 
@@ -450,6 +713,15 @@ def ext_expr(c, variant):
                 f"let m := @X.get_thrust_cat_cruise F ff {cal} in "
                 f"(nox, nox * @tget F pno m, nox * @tget F pno2 m, nox * @tget F phono m, "
                 f"@tget F pno m, @tget F pno2 m, @tget F phono m)%float) {pts}")
+    if k == 'atmos':
+        pts = lst(f'({fl(h)}, {fl(t)})' for h, t in zip(c['h'], c['tas']))
+        return f"map (fun x => let '(h, tas) := x in @X.atmos_state_init F h tas) {pts}"
+    if k == 'sound':
+        pts = lst(f'({fl(h)}, {fl(t)}, {fl(p)})' for h, t, p in zip(c['h'], c['T'], c['p']))
+        return (f"map (fun x => let '(h, Tk, p) := x in (@X.calculate_speed_of_sound F Tk, "
+                f"@X.speed_of_sound_at_altitude F h, @X.calculate_air_density F p Tk)) {pts}")
+    if k == 'meem':
+        return model_expr(c, variant).replace('@meem F', 'x_meem', 1)
     if k == 'hcco':
         pts = lst(tup(p) for p in c['pts'])
         return (f"(@X.hcco_ACRP_slope F, map (fun x => let '(ff, Ta, P) := x in @X.hcco_cruise_factor F Ta P) {pts})")
@@ -485,13 +757,23 @@ def gen_cal(rng, count, min_spread=None):
             else:
                 f.append(f[-1] * rng.uniform(1.06, 3.2))
         r = rng.random()
+        if r < 0.12:           # explicit pairwise-equal patterns (never all four)
+            a, b, c = sorted(f)[0], sorted(f)[-1], sorted(f)[1] if sorted(f)[1] not in (sorted(f)[0], sorted(f)[-1]) else sorted(f)[0] * 1.5
+            if a == b:
+                b = a * 2.0
+            f = list(rng.choice([(a, a, b, b), (a, b, b, c), (a, b, a, b), (b, a, a, b), (a, a, a, b), (a, b, b, b),
+                                 (b, b, a, a)]))
+            shape.append('eq')
+        r = rng.random()
         if r < 0.25:
             rng.shuffle(f)
             tag = 'nonmonotone' if f != sorted(f) else 'monotone'
         else:
-            tag = 'monotone'
-        if 'eq' in shape:
+            tag = 'nonmonotone' if f != sorted(f) else 'monotone'
+        if 'eq' in shape or len(set(f)) < 4:
             tag += '+equal'
+        if len(set(f)) == 1:
+            continue
         if min_spread is not None and max(f) / min(f) < min_spread:
             continue
         count(tag)
@@ -512,10 +794,14 @@ def gen_ei(rng, lo=0.02, hi=200.0):
 
 def gen_ff_points(rng, cal, n):
     lo, hi = min(cal), max(cal)
-    pts = [0.0, cal[0] * 1e-3, rng.uniform(0, cal[0]), rng.choice(cal), rng.choice(cal),
-           0.5 * (cal[0] + cal[1]), 0.5 * (cal[1] + cal[2]), hi * rng.uniform(1.0, 1.3)]
+    lowl, appl = 0.5 * (cal[0] + cal[1]), 0.5 * (cal[1] + cal[2])
+    edge = rng.choice([cal[0], lowl, appl, rng.choice(cal)])
+    pts = [0.0, cal[0] * 1e-3, rng.uniform(0, cal[0]), rng.choice(cal), cal[0], lowl, appl, hi * rng.uniform(1.0, 1.3),
+           math.nextafter(edge, math.inf), math.nextafter(edge, -math.inf)]
     while len(pts) < n:
         pts.append(rng.uniform(0.2 * lo, 1.3 * hi))
+    if rng.random() < 0.5:
+        pts[2] = -rng.uniform(0.0, lo)          # negative flow (treated like zero flow by the EI functions)
     rng.shuffle(pts)
     return [float(x) for x in pts[:n]]
 
@@ -538,6 +824,32 @@ def gen_case(rng, kind, count):
     if kind == 'atmos':
         hs = [0.0, 11000.0, 25000.0] + [rng.uniform(0, 25000) for _ in range(7)]
         return {'kind': kind, 'h': [float(h) for h in hs], 'tas': [float(rng.choice([0.0, rng.uniform(0, 290)])) for _ in hs]}
+    if kind == 'sound':
+        hs = [0.0, 11000.0, 25000.0] + [rng.uniform(0, 25000) for _ in range(7)]
+        Ts = [o_isa_T(h) + rng.choice([0.0, rng.uniform(-20, 20)]) for h in hs]
+        return {'kind': kind, 'h': [float(h) for h in hs], 'T': [float(t) for t in Ts], 'p': [float(o_isa_p(h)) for h in hs]}
+    if kind == 'shape':
+        cal, _tag = gen_cal(rng, count, min_spread=1.5)
+        hs = [0.0, 11000.0, 25000.0, float(rng.randint(1, 24999))] + [rng.uniform(0, 25000) for _ in range(2)]
+        pts = []
+        for ff in gen_ff_points(rng, cal, 6):
+            T, P, _h = gen_ambient(rng)
+            pts.append([ff, T, P, float(rng.uniform(0, 0.95))])
+        mc = gen_case(rng, 'meem', lambda *a: None)
+        e = mc['edb']
+        e['sn'] = [float(rng.randint(1, 35)) for _ in range(4)]
+        e['pr'] = float(rng.randint(8, 45))
+        if min(e['mass']) > 0:
+            e['mass'] = [float(rng.randint(1, 300)) for _ in range(4)]
+        return {'kind': kind, 'h': hs, 'cal': cal, 'ei': gen_ei(rng, 1.0, 80.0), 'pts': pts,
+                'thrust': [float(rng.uniform(0, 110)) for _ in range(6)], 'hc': [float(rng.uniform(0, 30)) for _ in range(6)],
+                'sn_int': [rng.choice([-1, 0, rng.randint(1, 45)]) for _ in range(4)], 'meem': mc}
+    if kind == 'cache':
+        sn = [float(rng.choice([-1.0, 0.0, rng.uniform(0.2, 40)])) for _ in range(4)]
+        sn2 = [float(rng.uniform(0.2, 40)) for _ in range(4)]
+        b1, b2 = float(rng.uniform(0.2, 6)), float(rng.uniform(6, 12))
+        seq = [[sn, 'MTF', b1], [sn, 'TF', b1], [sn, 'MTF', b2], [sn2, 'MTF', b1], [sn, 'TP', b1]]
+        return {'kind': kind, 'seq': seq + seq}
     if kind == 'ffm2':
         pts = []
         for _ in range(8):
@@ -546,7 +858,7 @@ def gen_case(rng, kind, count):
         return {'kind': kind, 'pts': pts, 'n_eng': int(rng.choice([1, 2, 2, 3, 4])), 'k': k}
     if kind == 'cat':
         cal, tag = gen_cal(rng, count)
-        return {'kind': kind, 'cal': cal, 'ff': gen_ff_points(rng, cal, 12), 'tag': tag}
+        return {'kind': kind, 'cal': cal, 'ff': gen_ff_points(rng, cal, 14), 'tag': tag}
     if kind in ('nox', 'hcco'):
         if kind == 'nox' and rng.random() < 0.06:
             f = math.exp(rng.uniform(math.log(0.05), math.log(2.0)))
@@ -556,7 +868,7 @@ def gen_case(rng, kind, count):
             cal, tag = gen_cal(rng, count, min_spread=1.5 if kind == 'nox' else None)
         ei = gen_ei(rng) if kind == 'hcco' else gen_ei(rng, 1.0, 80.0)
         pts = []
-        for ff in gen_ff_points(rng, cal, 10):
+        for ff in gen_ff_points(rng, cal, 12):
             T, P, _h = gen_ambient(rng)
             pts.append([ff, T, P])
         return {'kind': kind, 'cal': cal, 'ei': ei, 'pts': pts, 'k': k, 'tag': tag}
@@ -639,6 +951,30 @@ def judge(chk: Check, c, impl, model, ext, nox_flat):
             want = (o_isa_T(h), o_isa_p(h), tas / math.sqrt(1.4 * O_R * o_isa_T(h)))
             if not finite_nonneg([T, P, M]) or not all(rel(a, b, 1e-9, 1e-15) for a, b in zip((T, P, M), want)):
                 bad = (f'AtmosphericState at h={h} m, TAS={tas} m/s: implementation {(T, P, M)}, cited {want}', None)
+    elif k == 'sound':
+        for i, (h, T, p) in enumerate(zip(c['h'], c['T'], c['p'])):
+            aT, ah, rho = impl['a_T'][i], impl['a_h'][i], impl['rho'][i]
+            if not finite_nonneg([aT, ah, rho]):
+                bad = (f'speed of sound / density not finite at h={h}: {(aT, ah, rho)}', None)
+            elif not rel(aT, math.sqrt(1.4 * O_R * T), 1e-5) or not rel(ah, math.sqrt(1.4 * O_R * o_isa_T(h)), 1e-5):
+                # the code uses R = 287.05 in the speed of sound (5e-6 relative below the ISA value): tolerance 1e-5
+                bad = (f'speed of sound at T={T} / h={h}: {(aT, ah)} vs sqrt(kappa R T) = {math.sqrt(1.4 * O_R * T)}', None)
+            elif not rel(rho, p / (O_R * T)):
+                bad = (f'air density at p={p} T={T}: {rho} vs p/(R T) = {p / (O_R * T)}', None)
+    elif k == 'shape':
+        if impl['issues']:
+            bad = ('results depend on the shape / dtype of the inputs: ' + ' | '.join(impl['issues'][:3]), None)
+    elif k == 'cache':
+        for i, (sn, et, bpr) in enumerate(c['seq']):
+            want = [o_scope11(s_, j, bpr, et) for j, s_ in enumerate(sn)]
+            for nme in ('profile', 'direct'):
+                if not all(rel(a, b, 1e-9, 1e-15) for a, b in zip(impl[nme][i], want)):
+                    bad = (f'cached SCOPE11 {nme} call #{i} (SN={sn}, {et}, BPR={bpr}) returned {impl[nme][i]}, cited {want}'
+                           f' (sequence of calls in one process: {[(x[1], x[2]) for x in c["seq"][:i + 1]]})', None)
+        for j, mname in enumerate(MODES):
+            if not all(rel(impl['spec'][j][q_], O_SPEC[mname][q_]) for q_ in range(3)):
+                bad = (f'NOx_speciation() after an attempted write: {impl["spec"][j]} for {mname}', None)
+        chk.count('cache:returned-object-writable', sum(1 for w in impl['writable'] if w) + (1 if impl['spec_writable'] else 0))
     elif k == 'ffm2':
         for i, (ff, P, T, M) in enumerate(c['pts']):
             v, vk = impl['sls'][i], impl['sls_k'][i]
@@ -683,6 +1019,7 @@ def judge(chk: Check, c, impl, model, ext, nox_flat):
             elif not rel(o[1] + o[2] + o[3], o[0]) or not all(rel(o[1 + j], o[0] * O_SPEC[cat][j]) for j in range(3)):
                 bad = (f'NO+NO2+HONO != NOx at ff={ff}: {o[:4]}', None)
     elif k == 'hcco':
+        c['_near'] = []
         for i, (ff, T, P) in enumerate(c['pts']):
             v, vk = impl['out'][i], impl['out_k'][i]
             want, margin, lmag = o_hcco(ff, c['ei'], c['cal'], T, P)
@@ -699,6 +1036,7 @@ def judge(chk: Check, c, impl, model, ext, nox_flat):
                 continue
             if margin < 1e-7:
                 chk.count('hcco:oracle-abstains-near-boundary')
+                c.setdefault('_near', []).append(i)
                 continue
             if not rel(v, want, 1e-8):
                 bad = (f'HC/CO bilinear fit at ff={ff} T={T} P={P} ei={c["ei"]} cal={c["cal"]}: implementation {v}, cited rules {want}', None)
@@ -748,6 +1086,11 @@ def judge(chk: Check, c, impl, model, ext, nox_flat):
                 bad = (f'MEEM number index not linear in the certification number indices: {on[2]} vs {c["k"] * o[2]}', None)
         nontrivial = max(e['sn']) >= 0
 
+    if bad is None and k in ('nox', 'hcco'):
+        if not impl.get('inputs_untouched', True):
+            bad = (f'{k}: the function modified its input arrays / certification values in place', None)
+        elif not impl.get('repeatable', True):
+            bad = (f'{k}: a second call with the same arguments returned different values', None)
     chk.case(c, nontrivial)
     chk.count('kind:' + k)
     if bad is not None:
@@ -804,6 +1147,8 @@ def diff_model(c, impl, m):
                     return f'pt {c["pts"][i]}: model {v} vs impl {impl["out"][i]}'
         elif k == 'hcco':
             for i, v in enumerate(m):
+                if i in c.get('_near', ()):      # within rounding of a discontinuity: log10 implementations may differ
+                    continue
                 if not _cl(v, impl['out'][i]):
                     return f'pt {c["pts"][i]}: model {v} vs impl {impl["out"][i]}'
         elif k in ('sox', 'scope11'):
@@ -828,8 +1173,13 @@ def diff_model(c, impl, m):
 
 def diff_ext(c, impl, x):
     k = c['kind']
-    if k in ('isa', 'ffm2', 'cat', 'nox', 'sox', 'pmvol', 'scope11'):
+    if k in ('isa', 'atmos', 'ffm2', 'cat', 'nox', 'sox', 'pmvol', 'scope11', 'meem'):
         return diff_model(c, impl, x)
+    if k == 'sound':
+        for i, (aT, ah, rho) in enumerate(x):
+            if not (_cl(aT, impl['a_T'][i]) and _cl(ah, impl['a_h'][i]) and _cl(rho, impl['rho'][i])):
+                return f'h={c["h"][i]} T={c["T"][i]}: extracted {(aT, ah, rho)} vs impl {(impl["a_T"][i], impl["a_h"][i], impl["rho"][i])}'
+        return ''
     if k == 'hcco':
         slope, facs = x
         if slope != -52.0:
@@ -885,8 +1235,31 @@ def extract(chk: Check):
                                     'HC/CO pieces, PMvol, SCOPE11)', 'ok': True, 'axioms': []})
     if chk.coq_compile_gen('C12_Extracted', text) is None:
         return False
-    chk.coq_link('C12_Link.v')
+    if not chk.coq_link('C12_Link.v'):
+        name_failed_link_theorem(chk)
     return True
+
+
+def name_failed_link_theorem(chk: Check):
+    """coqc stops at the first obligation of link/C12_Link.v that no longer holds: name it."""
+    import re
+    detail = chk.breaks[-1]['detail'] if chk.breaks else ''
+    m = re.findall(r'C12_Link\.v", line (\d+)', detail)
+    if not m:
+        return
+    line = int(m[-1])
+    src = (VERIF / 'coq' / 'link' / 'C12_Link.v').read_text().splitlines()
+    name = None
+    for ln in src[:line]:
+        mm = re.match(r'\s*(Theorem|Lemma)\s+([\w\']+)', ln)
+        if mm:
+            name = mm.group(2)
+    if name:
+        err = detail[detail.rfind('Error'):][:400] if 'Error' in detail else detail[-400:]
+        chk.breaks.insert(0, {'what': f'link-theorem:{name}', 'detail': f'obligation {name} (link/C12_Link.v line {line}) no '
+                              f'longer holds for the text regenerated from the source: {err}', 'case': None})
+        from harness.common import log
+        log(f'[C12] BROKEN link-theorem:{name} (line {line})')
 
 
 def detect_nox_flat():
@@ -903,7 +1276,10 @@ def check_cases(chk: Check, cases, have_ext):
     chk.notes['bffm2_nox_degenerate_fit'] = 'flat line (repaired)' if nox_flat else 'numpy minimum-norm polyfit (finding FC12a)'
     variant = 'DegFlat' if nox_flat else 'DegMinNorm'
     impls = [impl_case(c) for c in cases]
-    models = chk.coq_eval(HEADER_MODEL, [model_expr(c, variant) for c in cases], shard=60, label='model')
+    models = [None] * len(cases)
+    midx = [i for i, c in enumerate(cases) if model_expr(c, variant) is not None]
+    for i, v in zip(midx, chk.coq_eval(HEADER_MODEL, [model_expr(cases[i], variant) for i in midx], shard=60, label='model')):
+        models[i] = v
     exts = [None] * len(cases)
     if have_ext:
         idx = [i for i, c in enumerate(cases) if ext_expr(c, variant) is not None]
@@ -914,7 +1290,7 @@ def check_cases(chk: Check, cases, have_ext):
         judge(chk, c, i, m, x, nox_flat)
 
 
-KINDS = [('isa', 30, 300), ('atmos', 20, 200), ('ffm2', 40, 400), ('cat', 120, 1500), ('nox', 220, 3000), ('hcco', 320, 4500),
+KINDS = [('isa', 30, 300), ('atmos', 20, 200), ('sound', 10, 100), ('shape', 30, 300), ('cache', 10, 100), ('ffm2', 40, 400), ('cat', 120, 1500), ('nox', 220, 3000), ('hcco', 320, 4500),
          ('sox', 40, 300), ('pmvol', 30, 300), ('scope11', 100, 1200), ('meem', 100, 1200)]
 
 
